@@ -73,6 +73,11 @@ def run_variant(v, repo):
             if r.returncode != 0:
                 return v, "FAIL", f"expected exit 0 on a behaviour-preserving variant, got {r.returncode}\n{out[-1500:]}"
             return v, "PASS", ""
+        if exp == "nonsilent":
+            # a breaking change outside the idiom tables: the check must not pass (VIOLATION or UNDECIDED, never exit 0)
+            if r.returncode == 0:
+                return v, "FAIL", f"expected a non-zero exit (violation or undecided) on a breaking variant, got 0\n{out[-1500:]}"
+            return v, "PASS", ""
         if exp == "fixed":
             if r.returncode != 0:
                 return v, "FAIL", f"expected exit 0 on repaired variant, got {r.returncode}\n{out[-1500:]}"
